@@ -49,7 +49,12 @@ theorem ind_law_is_transform (hE : IsExp E) (x : Ix → Signal K) (s : K) (hx : 
       = laws .ivp s (transformOf E x s) (.Ind n1 n2 m l i0 coup) :=
   laws_transform E hE x s hx (.Ind n1 n2 m l i0 coup, w) hr
 
-/-- **laws_s_of_laws_t**: signals that satisfy the time-domain laws (from the initial state written in the netlist;
+/-- **laws_s_of_laws_t** (pointwise lemma at ONE regular point `s`).  READING (audit F3/F4): `LawsT E` is "the time-domain
+    laws" only together with `FinitePoles` (otherwise the set of regular points may be empty) and, for DELAYED sources, only
+    for an `E` whose delay factors are independent — `Real.exp` (`delayIndep_real`); over ℚ `IsExp E` forces `E = 1`, which
+    forgets every delay.  The claimed statements are `C02.lawsTime_iff_formal`, `laws_time_of_laws_s`, `formal_lawsTime`
+    (Props/C02Inj.lean), the `…_real` ones, and `lawsTW_iff_formal` (delays as indeterminates).
+    Signals that satisfy the time-domain laws (from the initial state written in the netlist;
     at rest where none is written) have transforms that satisfy the ivp s-domain laws of C01 at every regular point,
     the sources being replaced by the transforms of their waveforms.  Any netlist, any size. -/
 theorem laws_s_of_laws_t (hE : IsExp E) (tcs : List (TCpt K)) (x : Ix → Signal K)
@@ -71,7 +76,7 @@ theorem laws_s_of_laws_t (hE : IsExp E) (tcs : List (TCpt K)) (x : Ix → Signal
     obtain ⟨q, hq, rfl⟩ := List.mem_map.mp hp
     exact hl c hc q hq
 
-/-- **laws_t_of_laws_s**: conversely, if the transforms satisfy the ivp s-domain laws at every regular point then the
+/-- **laws_t_of_laws_s** (transform level; meaningful with `FinitePoles`: see `C02.laws_time_of_laws_s`): conversely, if the transforms satisfy the ivp s-domain laws at every regular point then the
     signals satisfy the time-domain laws (equality of signals being equality of transforms at every regular point). -/
 theorem laws_t_of_laws_s (hE : IsExp E) (tcs : List (TCpt K)) (x : Ix → Signal K)
     (hrest : RestWhereUnspecified tcs x)
@@ -115,7 +120,8 @@ theorem response_unique_at (hE : IsExp E) (U : Ix → Prop) (tcs : List (TCpt K)
     ∀ i, U i → L E (x i).post s = L E (y i).post s :=
   C01.laws_unique_on U .ivp s _ _ _ hwf hns (laws_s_of_laws_t E hE tcs x hrx hx s hsx) (laws_s_of_laws_t E hE tcs y hry hy s hsy)
 
-/-- **response_is_ilt**: the time response obtained by inverting (`ilt`, the mirror of
+/-- **response_is_ilt** (`TD.response` = the model's `ilt`, executed by Driver/C10, not by Driver/C02; transform-level
+    conclusion, see `C02.response_is_ilt_time` for the form with `FinitePoles`): the time response obtained by inverting (`ilt`, the mirror of
     `InverseLaplaceTransformer.ratfun`) partial-fraction data of an s-domain solution satisfies the time-domain laws.
     `X ix s = Σ evalPF` is the s-domain solution written in partial fractions (one `PF` per delay factor);
     orders are numbered from 1 as `as_QRPO` does. -/
@@ -199,7 +205,8 @@ end handover
 section formal
 variable {K : Type} [Field K] [DecidableEq K]
 
-/-- **formal_lawsT**: what the driver decides implies the time-domain laws, for every exponential `E`. -/
+/-- **formal_lawsT**: what the driver decides implies the transform-level laws, for every `E` (with `FinitePoles`:
+    `C02.formal_lawsTime`; the formal laws are the stronger statement, cf. `lawsTW_iff_formal`). -/
 theorem formal_lawsT (E : K → K) (tcs : List (TCpt K)) (x : Ix → Signal K) (h : LawsTFormal tcs x) : LawsT E tcs x := by
   intro s _
   exact ⟨fun k hk => L_of_formalZero E (h.1 k hk) s, fun c hc p hp => L_of_formalZero E (h.2 c hc p hp) s⟩
@@ -506,6 +513,19 @@ example : NoDelta (vpost exX 2 0) := by
   intro t ht
   simp [vpost, subP, voltT, exX, smul, Signal.zero] at ht
   rcases ht with rfl | rfl <;> trivial
+
+-- `ic_start_value` on the example: v_C is causal, and its value at 0⁺ is the initial condition 3
+example : Causal (vpost exX 2 0) := by
+  intro t ht
+  simp [vpost, subP, voltT, exX, smul, Signal.zero] at ht
+  rcases ht with rfl | rfl <;> simp [Term.delayOf]
+example : evalAt (fun _ : ℚ => (1 : ℚ)) (vpost exX 2 0) 0 = 3 := by decide +kernel
+
+/-- the oracle as the driver runs it returns `ok` on the example, hence (`tdCheck_sound`) the formal laws -/
+def exNamed : List (String × TCpt ℚ) :=
+  [("V1", (.V 1 0 0 0, ⟨[], [.ep 5 0 0 0]⟩)), ("R1", (.R 1 2 2, ⟨[], []⟩)), ("C1", (.Cap 2 0 (1 / 2) (some 3), ⟨[], []⟩))]
+example : (tdCheck false ["V1"] 3 exNamed exX).map VerdictT.isOk = some true := by decide +kernel
+example : nodesBelow 3 exTcs = true := by decide +kernel
 
 end examples
 
